@@ -147,3 +147,5 @@ def check(prog: Program, rep):
     _c17x.query_purity(prog, _RPx(rep, "C05.R10"), "C17.R2", _AMx(prog))
     from rules.plumb import constraints_as_safe_sequences_rule
     constraints_as_safe_sequences_rule(prog, rep, "C05.R10")
+    from rules.plumb import constraint_edges_trusted_rule
+    constraint_edges_trusted_rule(prog, rep, "C05.R10")
